@@ -1,0 +1,36 @@
+//go:build verif
+
+package gateway
+
+import "sync"
+
+// This file is only compiled with the build tag "verif". It gives the verification harness in /verif
+// in-process access to the executor's unexported stitching helpers; it adds no behaviour.
+
+// VerifInsertObject runs executorInsertObject on target.
+func VerifInsertObject(target map[string]interface{}, path []string, value interface{}) error {
+	ctx := &ExecutionContext{logger: verifSilentLogger{}}
+	return executorInsertObject(ctx, target, &sync.Mutex{}, path, value)
+}
+
+// VerifPointData runs executorGetPointData; index is -1 when the point has none.
+func VerifPointData(point string) (field string, index int, id string, err error) {
+	data, err := executorGetPointData(point)
+	if err != nil {
+		return "", 0, "", err
+	}
+	return data.Field, data.Index, data.ID, nil
+}
+
+// VerifIsListElement runs isListElement.
+func VerifIsListElement(point string) bool {
+	return isListElement(point)
+}
+
+type verifSilentLogger struct{}
+
+func (verifSilentLogger) Debug(args ...interface{})               {}
+func (verifSilentLogger) Info(args ...interface{})                {}
+func (verifSilentLogger) Warn(args ...interface{})                {}
+func (l verifSilentLogger) WithFields(fields LoggerFields) Logger { return l }
+func (verifSilentLogger) QueryPlanStep(step *QueryPlanStep)       {}
